@@ -312,7 +312,7 @@ pub fn run(ctx: &mut Ctx) {
         ctx.eval();
         ctx.count("seal_unseal");
         ctx.count(&format!("seal_sender_{}", s.scheme));
-        let sealed = match trap::guard(|| e.seal_opt(&s.sk, &k.pk, s.options())) {
+        let sealed = match trap::guard(|| if s.options().is_none() && case % 2 == 0 { e.seal(&s.sk, &k.pk) } else { e.seal_opt(&s.sk, &k.pk, s.options()) }) {
             Ok(x) => x,
             Err(p) => {
                 ctx.violation(&format!("seal/panic/{}", p.signature()), &format!("{:?}", p), replay());
